@@ -79,6 +79,23 @@ def handleRetryReset (l : Line) : List Verdict :=
     pure (verdictsOf [] (if before && after then [("C17.counter_not_cleared", s!"retry cookie survives a successful {via}")] else []))
   r.getD [Verdict.bad "retryreset"]
 
+/-- config.Cookie.Validate against the model rule (C14: insecure cookies only when every ingress is plain-http localhost) -/
+def handleCookieVal14 (l : Line) : List Verdict :=
+  let r : Option (List Verdict) := do
+    let secure ← l.bool? "secure"
+    let samesite ← l.str? "samesite"
+    let schemes ← l.strs? "schemes"
+    let hostnames ← l.strs? "hostnames"
+    let parses ← l.bool? "parses"
+    let accepted ← l.bool? "accepted"
+    let ssOk := samesite == "Lax" || samesite == "None" || samesite == "Strict"
+    let model := ssOk && (secure || (parses && Ww.Model.secureExemptionOk secure (schemes.zip hostnames)))
+    let offending := (schemes.zip hostnames).filter fun (s, h) => !(s == "http" && h.toLower == "localhost")
+    pure (verdictsOf (cmp "configuration accepted" accepted model)
+      (if accepted && !secure && !offending.isEmpty then
+        [("C14.attr.secure", s!"cookies without Secure were accepted although ingress {offending.head?.map (fun (s, h) => s ++ "://" ++ h)} is not plain-http localhost")] else []))
+  r.getD [Verdict.bad "cookieval14"]
+
 def handleRateLimit (l : Line) : List Verdict :=
   let r : Option (List Verdict) := do
     let enabled ← l.bool? "enabled"
